@@ -1,4 +1,5 @@
 """C03 — lifecycle callbacks follow the started / handle* / stopped protocol."""
+from mir import Body
 import core, nfa, loops
 from nfa import Spec, Err
 
@@ -37,6 +38,8 @@ class RefreshSpec(Spec):
         if ev == "call:default":
             if self.kind == "recreate":
                 return ("defaulted",) if ph == "stopped" else Err("R03.3: fresh value created in phase %s (expected between stopped and started)" % ph)
+            if ph in ("stopping", "stopped"):
+                return Err("R03.3: a strategy that restarts the same instance creates a fresh value between stopped() and started()")
             return st
         if ev == "call:started":
             need = "defaulted" if self.kind == "recreate" else "stopped"
@@ -47,6 +50,9 @@ class RefreshSpec(Spec):
             return ("startres",) if ph == "starting" else st
         if ev in ("sw:Res::Ok", "sw:Res::Err") and src == "started" and ph == "startres":
             return ("ok",) if ev.endswith("Ok") else ("failed",)
+        if ev == "retval:move" and ph in ("ok", "failed"):
+            # the outcome of a helper that ran the whole cycle is handed back unchanged
+            return ("okret",) if ph == "ok" else ("failret",)
         if ev == "retval:move" and src == "started" and ph == "startres":
             # the outcome of started() is handed back unchanged (a strategy that refreshes the actor in place)
             return ("okret",)
@@ -161,6 +167,43 @@ def check_receivers(ctx, fx, co, b, inst, kind, RULE="R03.4"):
             ctx.require(not stores, RULE, inst + ":returns-same-value", "RestartOnly must keep the actor value it was given, but overwrites it", fn=co["def"], site=stores[0][0] if stores else co["loc"])
         return
     n_ret = 0
+    # the whole cycle may be delegated to a crate-local async helper whose outcome is handed back unchanged
+    # (`restart_cycle(actor, ctx, Successor::Fresh(A::default)).await`): the value rule is judged on the helper's body; which
+    # of its paths belongs to which strategy is the business of the protocol rule, which follows the constants
+    lits_here = [1 for blk in b.blocks for st in blk["s"] if st["k"] == "assign" and st["p"] == [0] and st["r"]["k"] == "agg" and st["r"].get("variant") == "Ok"]
+    if not lits_here:
+        os0 = b.origins([0])
+        helpers = set()
+        for o in os0:
+            if o.kind == "await":
+                for _x, ct in b.awaited_calls(o.site[0]):
+                    h = fx.callee_fn(ct)
+                    if h is not None and h.get("is_async"):
+                        hco = [c for c in fx.children_of(h["def"]) if c["kind"] == "coroutine"]
+                        if len(hco) == 1:
+                            helpers.add(hco[0]["def"])
+        if len(helpers) == 1 and len(os0) == 1:
+            hco = fx.fn(next(iter(helpers)))
+            hb = Body(hco)
+            for blk in hb.blocks:
+                for st in blk["s"]:
+                    if st["k"] == "assign" and st["p"] == [0] and st["r"]["k"] == "agg" and st["r"].get("variant") == "Ok":
+                        srcs = set()
+                        for x in hb.origins(st["r"]["ops"][0]):
+                            if x.kind == "call":
+                                ct = hb.call_at(x)
+                                srcs.add(ct.get("callee") or ("fn-pointer" if ct.get("fnplace") else "?"))
+                            else:
+                                srcs.add(x.kind)
+                        n_ret += 1
+                        if kind == "recreate":
+                            good = any((s or "").endswith("default::Default::default") or s == "fn-pointer" for s in srcs) and srcs <= {"upvar", "arg", "fn-pointer", "core::default::Default::default"}
+                            ctx.require(good, RULE, inst + ":returns-fresh-value", "the shared restart helper must hand back the freshly created value on the recreate path, returns %s" % sorted(map(str, srcs)), fn=hco["def"], site=st.get("l"))
+                        else:
+                            good = bool(srcs) and srcs <= {"upvar", "arg", "fn-pointer", "core::default::Default::default"}
+                            ctx.require(good, RULE, inst + ":returns-same-value", "the shared restart helper hands back something else than the actor it was given (or its replacement), returns %s" % sorted(map(str, srcs)), fn=hco["def"], site=st.get("l"))
+            ctx.require(n_ret >= 1, RULE, inst + ":returns-a-value", "no `Ok(actor)` result found in the helper the strategy delegates to", fn=hco["def"], site=hco["loc"])
+            return
     # the returned value: retval:Ok aggregate operand
     for bi, blk in enumerate(b.blocks):
         for st in blk["s"]:
